@@ -298,7 +298,10 @@ fn video_verdict(st: &ContractState, pts: f64, dts: Option<f64>, data: &[u8], ke
     let mut maybe: Vec<EV> = Vec::new();
     let mut either: Option<&'static str> = None;
     if st.finish_failed {
-        return Verdict::MustReject(vec![EV::AlreadyFinished, EV::Io]);
+        // finish was called and failed: "cannot write frames after calling finish()"; any other violated
+        // precondition may be the one that is named
+        rej.push(EV::AlreadyFinished);
+        maybe.push(EV::Io);
     }
     if st.finished {
         rej.push(EV::AlreadyFinished);
@@ -398,7 +401,10 @@ fn audio_verdict(st: &ContractState, pts: f64, data: &[u8]) -> Verdict {
     let mut maybe: Vec<EV> = Vec::new();
     let mut either: Option<&'static str> = None;
     if st.finish_failed {
-        return Verdict::MustReject(vec![EV::AlreadyFinished, EV::Io]);
+        // finish was called and failed: "cannot write frames after calling finish()"; any other violated
+        // precondition may be the one that is named
+        rej.push(EV::AlreadyFinished);
+        maybe.push(EV::Io);
     }
     if st.finished {
         rej.push(EV::AlreadyFinished);
